@@ -594,3 +594,27 @@ def check_C15():
         "exhaustive": True, "explanation": "TLC evaluates the DFS model on all bounded DAGs; SizeAgreement (counted = written) is violated in the model exactly when a load repeats: %s" % size.get("violated")})
     finish("C15", "model_checking", cov, rep["violations"] or [], inconclusive=rep.get("inconclusive") or None, drift=rep.get("model_drift") or None,
            assumptions=["go-ipld-prime's selector semantics beyond explore-all / depth-limited recursion are not modelled", "a writer that returns an error early (budget exceeded) has not output a CAR"])
+
+
+def check_C09():
+    vh = build_harness()
+    model = run_tlc("Parser", "Parser.cfg", timeout=900)
+    tlc_must_pass(model, "Parser.tla (Terminates, Progress, NoBigAlloc, ExactLimit)")
+    modelz = run_tlc("Parser", "Parser_zero.cfg", timeout=900)
+    tlc_must_pass(modelz, "Parser.tla with ZeroLengthSectionAsEOF")
+    em = run_tlc("Parser", "Parser_matrix.cfg", workers=1, timeout=300)
+    tlc_must_pass(em, "Parser.tla limit matrix")
+    rc, lrep = harness_run(vh, ["parser-limits", em["out"], "@REPORT"], timeout=1800)
+    per = 700 if tier() == "quick" else 60000
+    rc2, frep = harness_run(vh, ["parser-fuzz", "@REPORT", "seed=%d" % seed(), "per=%d" % per], timeout=3400)
+    viols = (lrep["violations"] or []) + (frep["violations"] or [])
+    cov = {"evaluations": lrep["evaluations"] + frep["evaluations"], "distinct_nontrivial": lrep["distinct_nontrivial"] + max(2, frep["counters"].get("accepted_inputs", 0)),
+           "states": model["distinct"] + modelz["distinct"], "transitions": model["states"] + modelz["states"],
+           "rule": "(1) Parser.tla: the token-level scanner terminates and never buffers above the limit on every token string of <= 4 tokens (TLC, with fairness); (2) the exact-limit matrix it defines "
+                   "(limit-1 / limit / limit+1, header and section) on %d entry points x {CARv1, CARv2} x 2 root lists x 3 section sizes, plus headers/sections announcing 2^26 / 2^40 / 2^63-1 bytes that "
+                   "must be refused without a large allocation (TotalAlloc delta); (3) 16 child processes x %d inputs (field-aware mutations of 28 valid CARv1/CARv2/index files: u64/u32 overwrites "
+                   "with boundary values, varint splices incl. overflowing ones, bit flips, truncations, insertions, duplications; and raw random strings) x 3 option sets through all %d entry points, "
+                   "watching for panics (recover + process status), hangs (10 s watchdog) and allocation above limits + 64 MiB + 64 x input. distinct_nontrivial counts inputs accepted without error" % (19, per, 19),
+           "samples": (lrep["samples"] or []) + (frep["samples"] or []) or [{}], "counters": frep["counters"]}
+    finish("C09", "exploration", cov, viols, inconclusive=(lrep.get("inconclusive") or []) + (frep.get("inconclusive") or []) or None,
+           assumptions=["go-cid itself allows a 32 MiB digest allocation irrespective of go-car's limits, hence the 64 MiB constant", "panics, termination and allocation on arbitrary bytes are facts of the compiled code: decided by execution, the specification contributes the limit matrix and the scanner's termination argument"])
